@@ -38,7 +38,8 @@ V(v, k, f) == [v |-> v, k |-> k, f |-> f]
 
 GoodStep(o) ==
   /\ o.k \in {"cd", "pwd"}
-  /\ \A i \in 1..Len(o.pre) : Len(o.pre[i]) = 2 /\ o.pre[i][1] \in {"HOME", "CDPATH", "OLDPWD"}
+  /\ \A i \in 1..Len(o.pre) : Len(o.pre[i]) = 2 /\ o.pre[i][1] \in {"HOME", "CDPATH", "OLDPWD", "readonly"}
+                             /\ (o.pre[i][1] = "readonly" => o.pre[i][2] \in {"PWD", "OLDPWD"})
 
 RECURSIVE JudgeFrom(_, _, _, _)
 JudgeFrom(T, r, S, k) ==
